@@ -114,14 +114,16 @@ func main() {
 			fmt.Fprintln(out, c)
 		}
 	case "eval":
-		// watchdog: a case that runs for more than 20 s is a hang
+		// watchdog: a case that runs for more than 60 s of wall time is a hang (no single case
+		// needs more than about a second on an idle machine; the margin is for a machine that
+		// is busy with other work)
 		go func() {
 			for {
 				time.Sleep(500 * time.Millisecond)
 				st := curStart.Load()
-				if st != 0 && time.Now().UnixNano()-st > int64(20*time.Second) {
+				if st != 0 && time.Now().UnixNano()-st > int64(60*time.Second) {
 					out.Flush()
-					fmt.Fprintf(os.Stdout, "HANG\t%s\thang\n", fail("hang", "case %d did not return in 20s", curCase.Load()))
+					fmt.Fprintf(os.Stdout, "HANG\t%s\thang\n", fail("hang", "case %d did not return in 60s", curCase.Load()))
 					os.Exit(3)
 				}
 			}
